@@ -310,6 +310,7 @@ fn build_type(
                     acc
                 });
 
+        let mut conflicting_impl_names = std::collections::HashSet::new();
         types_to_field_paths
             .iter()
             .map(|(type_, field_path)| {
@@ -344,7 +345,8 @@ fn build_type(
                         ));
                     }
                     let conflicting_impl_doc = doc_to_tokens(false, Some(conflicting_impl_message.trim()));
-                    let conflicting_impl_ident = quote::format_ident!(
+                    // `a_b` and `a.b` (or `ab` and `aB`) spell the same constant: number the repeats
+                    let conflicting_impl_name = format!(
                         "_CONFLICTING_{}_{}",
                         unraw(name.as_str()).to_uppercase(),
                         field_path
@@ -353,6 +355,13 @@ fn build_type(
                             .collect::<Vec<_>>()
                             .join("_")
                     );
+                    let mut unique_name = conflicting_impl_name.clone();
+                    let mut repeat = 1;
+                    while !conflicting_impl_names.insert(unique_name.clone()) {
+                        repeat += 1;
+                        unique_name = format!("{conflicting_impl_name}_{repeat}");
+                    }
+                    let conflicting_impl_ident = quote::format_ident!("{}", unique_name);
 
                     quote! {
                         #conflicting_impl_doc
